@@ -192,14 +192,7 @@ Qed.
 Lemma client_closes_free t e w ls : fresh t w -> w_lock w = false -> w_guard w = false ->
   let '(r, w', ls') := client_aclose t e w ls in forall i, In i (leaves (tr_base t)) -> w_leaf w' i = true.
 Proof.
-  intros Hf Hl Hg. unfold client_aclose, with_lock, guarded_aclose. rewrite Hl, Hg.
-  pose proof (tr_aclose_closes t e w ls Hf) as H. destruct (tr_aclose t e w ls) as [[r w1] ls1].
-  destruct H as [H1 _].
-  destruct r; try exact H1;
-    (destruct (client_forced_fallback && _); [| exact H1];
-     pose proof (forceful_keeps _ (tr_aclose_keeps t) e w1 ls1) as K;
-     destruct (forceful (tr_aclose t) e w1 ls1) as [[r2 w2] ls2]; destruct K as [K _];
-     destruct r2; apply (closed_le _ _ _ K H1)).
+  intros Hf Hl Hg. unfold client_aclose. rewrite Hl. apply endpoint_closes; assumption.
 Qed.
 
 (* _ConnectedClientAPI.aclose with the send lock free *)
@@ -228,11 +221,87 @@ Definition f_tr : tr := TPlain (BLeaf 0 1).
 
 Lemma client_refuted : client_forced_fallback = false ->
   let '(r, w', _) := client_aclose f_tr env0 (world0 true) [XCancel] in r = RCancel /\ w_leaf w' 0 = false.
-Proof. intro H. unfold client_aclose. rewrite H. vm_compute. split; reflexivity. Qed.
+Proof. intro H. unfold client_aclose. simpl w_lock. cbv iota. rewrite H. vm_compute. split; reflexivity. Qed.
 
 Lemma api_refuted : api_fallback_bypasses_guard = false ->
   let '(r, w', _) := api_aclose f_tr env0 (world0 true) [XCancel] in r = RBusy /\ w_leaf w' 0 = false.
 Proof. intro H. unfold api_aclose. rewrite H. vm_compute. split; reflexivity. Qed.
+
+(* --- the contended case for the fixed shapes (meta/fixes/C14_F7.diff, C14_F8.diff): a sender may hold the send
+       lock and the send guard; the guard is only ever held together with the lock *)
+Lemma point_fresh t e w ls : fresh t w -> let '(r, w', ls') := point e w ls in fresh t w'.
+Proof.
+  intro Hf. unfold point. destruct (e_forced e); [exact Hf|].
+  destruct ls as [|[] ls']; try destruct (e_timed e); destruct t; simpl in *; auto.
+Qed.
+
+Lemma lock_point_spec t e w ls : fresh t w ->
+  let '(r, w', ls') := lock_point e w ls in
+  fresh t w' /\ le w w' /\ same_locks w w' /\ (r = ROk \/ r = RCancel \/ r = RForced \/ r = RShutdown).
+Proof.
+  intro Hf. unfold lock_point.
+  assert (G : forall ls0, (forall l, ls0 <> XRaise :: l) ->
+              let '(r, w', ls') := point e w ls0 in
+              fresh t w' /\ le w w' /\ same_locks w w' /\ (r = ROk \/ r = RCancel \/ r = RForced \/ r = RShutdown)).
+  { intros ls0 Hn. pose proof (point_fresh t e w ls0 Hf) as H1. pose proof (point_keeps e w ls0) as H2.
+    unfold point in *. destruct (e_forced e); [repeat split; try apply H2; auto|].
+    destruct ls0 as [|[] l0]; try (exfalso; eapply Hn; reflexivity); try destruct (e_timed e);
+      (split; [exact H1 | split; [apply H2 | split; [apply H2 | auto]]]). }
+  destruct ls as [|[] l]; try (apply G; intros l0 K; discriminate).
+Qed.
+
+Lemma release_fresh t w : fresh t w -> fresh t (release_sender w).
+Proof. destruct t; simpl; auto. Qed.
+
+Lemma client_closes_contended t e w ls : client_forced_fallback = true -> fresh t w ->
+  (w_lock w = false -> w_guard w = false) ->
+  let '(r, w', ls') := client_aclose t e w ls in forall i, In i (leaves (tr_base t)) -> w_leaf w' i = true.
+Proof.
+  intros Hp Hf Hlg. unfold client_aclose. destruct (w_lock w) eqn:Hl.
+  - pose proof (lock_point_spec t e w ls Hf) as Hs. destruct (lock_point e w ls) as [[r w1] ls1].
+    destruct Hs as [Hf1 [_ [_ Hr]]].
+    assert (Hforce : let '(r2, w2, ls2) := forceful (tr_aclose t) e w1 ls1 in
+                     forall i, In i (leaves (tr_base t)) -> w_leaf w2 i = true).
+    { pose proof (forceful_tr_closes t e w1 ls1 Hf1) as H. destruct (forceful (tr_aclose t) e w1 ls1) as [[r2 w2] ls2]. apply H. }
+    destruct Hr as [-> | [-> | [-> | ->]]].
+    + apply endpoint_closes; [apply release_fresh; exact Hf1 | reflexivity].
+    + rewrite Hp. destruct (forceful (tr_aclose t) e w1 ls1) as [[r2 w2] ls2]. destruct r2; exact Hforce.
+    + rewrite Hp. destruct (forceful (tr_aclose t) e w1 ls1) as [[r2 w2] ls2]. destruct r2; exact Hforce.
+    + rewrite Hp. destruct (forceful (tr_aclose t) e w1 ls1) as [[r2 w2] ls2]. destruct r2; exact Hforce.
+  - apply endpoint_closes; auto.
+Qed.
+
+Lemma api_closes_contended t e w ls : api_fallback_bypasses_guard = true -> fresh t w ->
+  (w_lock w = false -> w_guard w = false) ->
+  let '(r, w', ls') := api_aclose t e w ls in forall i, In i (leaves (tr_base t)) -> w_leaf w' i = true.
+Proof.
+  intros Hp Hf Hlg. destruct (w_lock w) eqn:Hl.
+  2:{ apply api_closes_free; auto. }
+  unfold api_aclose, with_lock. rewrite Hl, Hp.
+  pose proof (lock_point_spec t e w ls Hf) as Hs. destruct (lock_point e w ls) as [[r w1] ls1].
+  destruct Hs as [Hf1 [_ [_ Hr]]].
+  assert (Hforce : let '(r2, w2, ls2) := forceful (tr_aclose t) e (set_api_closing w1) ls1 in
+                   forall i, In i (leaves (tr_base t)) -> w_leaf w2 i = true).
+  { assert (Hf2 : fresh t (set_api_closing w1)) by (destruct t; simpl in *; auto).
+    pose proof (forceful_tr_closes t e (set_api_closing w1) ls1 Hf2) as H.
+    destruct (forceful (tr_aclose t) e (set_api_closing w1) ls1) as [[r2 w2] ls2]. apply H. }
+  destruct Hr as [-> | [-> | [-> | ->]]].
+  - (* the sender finished: lock and guard are free *)
+    unfold guarded_aclose. simpl w_guard.
+    assert (Hf2 : fresh t (set_api_closing (release_sender w1))) by (destruct t; simpl in *; auto).
+    pose proof (tr_aclose_closes t e (set_api_closing (release_sender w1)) ls1 Hf2) as H.
+    destruct (tr_aclose t e (set_api_closing (release_sender w1)) ls1) as [[r w2] ls2]. destruct H as [H1 _].
+    assert (K : let '(r3, w3, ls3) := forceful (tr_aclose t) e (set_api_closing w2) ls2 in
+                forall i, In i (leaves (tr_base t)) -> w_leaf w3 i = true).
+    { pose proof (forceful_keeps _ (tr_aclose_keeps t) e (set_api_closing w2) ls2) as K.
+      destruct (forceful (tr_aclose t) e (set_api_closing w2) ls2) as [[r3 w3] ls3]. destruct K as [K _].
+      apply (closed_le _ _ _ K). exact H1. }
+    destruct r; try exact H1;
+      (destruct (forceful (tr_aclose t) e (set_api_closing w2) ls2) as [[r3 w3] ls3]; destruct r3; exact K).
+  - destruct (forceful (tr_aclose t) e (set_api_closing w1) ls1) as [[r2 w2] ls2]. destruct r2; exact Hforce.
+  - destruct (forceful (tr_aclose t) e (set_api_closing w1) ls1) as [[r2 w2] ls2]. destruct r2; exact Hforce.
+  - destruct (forceful (tr_aclose t) e (set_api_closing w1) ls1) as [[r2 w2] ls2]. destruct r2; exact Hforce.
+Qed.
 
 (* both halves of a stapled transport are closed whatever happens while closing the first *)
 Lemma stapled_both s r e w ls :
